@@ -17,6 +17,7 @@ def run(col, configs, tier):
         guarded(col, F.rule_flag_layout, facts)
         guarded(col, F.rule_builder_pairs, facts)
         guarded(col, F.rule_format_error, facts)
+        guarded(col, F.rule_format_error_evaluated, facts)
         guarded(col, F.rule_build_strict, facts)
         guarded(col, F.rule_entry_validation, facts)
         guarded_soft(col, X.rule_byte_predicates, facts)
